@@ -1,7 +1,7 @@
 #!/bin/bash
 # run every claimed check (tier from $1, default quick) on the current tree; summary on stdout
 TIER="${1:-quick}"
-cd /verif
+cd "$(cd "$(dirname "$0")/.." && pwd)"
 for p in $(python3 -c "import json;print(' '.join(c['property_id'] for c in json.load(open('MANIFEST.json'))['checks']))"); do
   ./check $p --tier $TIER 2>&1 | grep -E "^(OK|FAIL|VIOLATION|KNOWN-FINDING|HARNESS)" | cut -c1-220
 done
